@@ -74,6 +74,14 @@ def cases_for_shape(sh, rng, small):
     cs.append("get %s %s" % (fmt(sh), fmt(list(sh) + [0])))     # too long
     cs.append("get %s %s" % (fmt(sh), fmt([0] * d)))
     cs.append("get %s %s" % (fmt(sh), fmt([n - 1 for n in sh])))
+    # call histories that mix next() with nth(k) (skip, step_by and nth itself all arrive as nth): relative to where the
+    # iterator stands, never to the start
+    for _ in range(3):
+        ops = [rng.choice(["x", "x", "0", "1", "2", "3", str(rng.randrange(0, E + 2))]) for _ in range(rng.randrange(3, 9))]
+        cs.append("indiceshist %s %s" % (fmt(sh), ",".join(ops)))
+        a_ = rng.randrange(d); i_ = rng.randrange(sh[a_])
+        cs.append("viewhist %s %d %d %s" % (fmt(sh), a_, i_, ",".join(ops)))
+    cs.append("indiceshist %s %s" % (fmt(sh), ",".join(["1"] * (E // 2 + 3))))          # step_by(2)
     for a in range(d):
         data = [rng.randrange(-50, 50) for _ in range(E)]
         cs.append("sum %s %d %s" % (fmt(sh), a, fmt(data)))
